@@ -553,4 +553,358 @@ theorem mapAssetKey_option_view {ε E A B : Type} (f : A → Except ε B) (i : I
 
 end optionView
 
+/-! ### H. ranks, and the specification's tables (insertion into an ascending list) against the
+builder's `sort(); dedup()` -/
+section tables
+open BarterModel.Index
+
+theorem filter_length_of_split {α : Type} (p : α → Bool) (l : List α) (i : Nat) (hi : i ≤ l.length)
+    (h1 : ∀ j x, j < i → l[j]? = some x → p x = true)
+    (h2 : ∀ j x, i ≤ j → l[j]? = some x → p x = false) : (l.filter p).length = i := by
+  have hsplit : l = l.take i ++ l.drop i := (List.take_append_drop i l).symm
+  rw [hsplit, List.filter_append]
+  have ha : (l.take i).filter p = l.take i := by
+    rw [List.filter_eq_self]
+    intro x hx
+    obtain ⟨j, hj⟩ := List.mem_iff_getElem?.mp hx
+    rw [List.getElem?_take] at hj
+    split at hj
+    · exact h1 j x ‹_› hj
+    · cases hj
+  have hb : (l.drop i).filter p = [] := by
+    rw [List.filter_eq_nil_iff]
+    intro x hx
+    obtain ⟨j, hj⟩ := List.mem_iff_getElem?.mp hx
+    rw [List.getElem?_drop] at hj
+    have := h2 (i + j) x (by omega) hj
+    simp [this]
+  rw [ha, hb]
+  simp [List.length_take]
+  omega
+
+theorem le_cons2 {a b a' b' : Nat} {r r' : List Nat} (h : a :: b :: r ≤ a' :: b' :: r') :
+    a < a' ∨ (a = a' ∧ b ≤ b') := by
+  have h' : ¬ (a' :: b' :: r' < a :: b :: r) := List.not_lt.mpr h
+  simp only [List.cons_lt_cons_iff] at h'
+  rcases Nat.lt_trichotomy a a' with h1 | h1 | h1
+  · exact Or.inl h1
+  · refine Or.inr ⟨h1, ?_⟩
+    rcases Nat.lt_or_ge b' b with h2 | h2
+    · exact absurd (Or.inr ⟨h1.symm, Or.inl h2⟩) h'
+    · exact h2
+  · exact absurd (Or.inl h1) h'
+
+
+/-- the rank argument shared by the asset and the instrument table: in a list that is ascending in
+the pair `(f x, g x)`, the first position holding the pair `(e, n)` is the number of entries whose
+pair comes before it -/
+theorem rank_of_first {α : Type} (f g : α → Nat) (l : List α)
+    (hs : l.Pairwise (fun a b => f a < f b ∨ (f a = f b ∧ g a ≤ g b))) (e n i : Nat) (x : α)
+    (hx : l[i]? = some x) (hxe : f x = e) (hxn : g x = n)
+    (hfirst : ∀ j, j < i → ∀ y, l[j]? = some y → ¬(f y = e ∧ g y = n)) :
+    (l.filter (fun y => keyLt (f y) (g y) e n)).length = i := by
+  obtain ⟨hil, hxi⟩ := List.getElem?_eq_some_iff.mp hx
+  apply filter_length_of_split _ _ _ (by omega)
+  · intro j y hj hy
+    obtain ⟨hjl, hyj⟩ := List.getElem?_eq_some_iff.mp hy
+    have := (List.pairwise_iff_getElem.mp hs) j i hjl hil hj
+    rw [hyj, hxi, hxe, hxn] at this
+    have hne := hfirst j hj y hy
+    simp only [keyLt, decide_eq_true_eq]
+    omega
+  · intro j y hj hy
+    obtain ⟨hjl, hyj⟩ := List.getElem?_eq_some_iff.mp hy
+    simp only [keyLt, decide_eq_false_iff_not]
+    rcases Nat.lt_or_eq_of_le hj with hlt | heq
+    · have := (List.pairwise_iff_getElem.mp hs) i j hil hjl hlt
+      rw [hyj, hxi, hxe, hxn] at this
+      omega
+    · subst heq
+      rw [hx] at hy; cases hy
+      omega
+
+
+/-- counting the distinct elements that satisfy a predicate commutes with a map that is injective on
+the list -/
+theorem distinct_filter_map_length {α β : Type} [DecidableEq α] [DecidableEq β] (f : α → β)
+    (l : List α) (hinj : ∀ x ∈ l, ∀ y ∈ l, f x = f y → x = y) (p : β → Bool) (q : α → Bool)
+    (hpq : ∀ x ∈ l, p (f x) = q x) :
+    ((specDistinct (l.map f)).filter p).length = ((specDistinct l).filter q).length := by
+  have hperm : ((specDistinct l).map f).Perm (specDistinct (l.map f)) := by
+    apply perm_specDistinct
+    · exact nodup_map_of_injOn f _ (nodup_specDistinct l) (fun x hx y hy =>
+        hinj x ((mem_specDistinct l x).mp hx) y ((mem_specDistinct l y).mp hy))
+    · intro x; simp [mem_specDistinct]
+  rw [← (hperm.filter p).length_eq, List.filter_map, List.length_map]
+  congr 1
+  apply List.filter_congr
+  intro x hx
+  exact hpq x ((mem_specDistinct l x).mp hx)
+
+
+theorem flatMap_defAssets_toDef (defs : List SDef) :
+    (defs.map toDef).flatMap defAssets = (specAssetEntries defs).map eraseEntry := by
+  simp only [specAssetEntries, List.flatMap_map, List.map_flatMap]
+  congr 1
+  funext d
+  simp only [defAssets, toDef_assetRefs, List.map_map]
+  rfl
+
+theorem specKeyLt_code (e e' : ExchangeId) (n n' : Str) (hn : n.length ≤ L) (hn' : n'.length ≤ L) :
+    keyLt e.toNat (code n) e'.toNat (code n') = specKeyLt e n e' n' := by
+  simp only [keyLt, specKeyLt, code_lt_iff n n' hn hn']
+  by_cases h1 : e.toNat < e'.toNat
+  · simp [h1]
+  · by_cases h2 : e = e'
+    · subst h2; simp
+    · have : e.toNat ≠ e'.toNat := fun h => h2 (toNat_inj h)
+      simp [h1, h2, this]
+
+theorem mem_specAssetEntries (defs : List SDef) (x : ExchangeId × BarterModel.Names.Asset) :
+    x ∈ specAssetEntries defs ↔ ∃ d ∈ defs, x.1 = d.exchange ∧ x.2 ∈ d.assetRefs := by
+  simp only [specAssetEntries, List.mem_flatMap, List.mem_map]
+  constructor
+  · rintro ⟨d, hd, a, ha, rfl⟩; exact ⟨d, hd, rfl, ha⟩
+  · rintro ⟨d, hd, h1, h2⟩; exact ⟨d, hd, x.2, h2, by cases x; simp_all⟩
+
+
+def Asset.ShortA (a : BarterModel.Names.Asset) : Prop :=
+  a.nameInternal.name.length ≤ L ∧ a.nameExchange.name.length ≤ L
+
+theorem erase_inj (a b : BarterModel.Names.Asset) (ha : Asset.ShortA a) (hb : Asset.ShortA b)
+    (h : a.erase = b.erase) : a = b := by
+  obtain ⟨⟨ai⟩, ⟨ax⟩⟩ := a
+  obtain ⟨⟨bi⟩, ⟨bx⟩⟩ := b
+  simp only [Asset.erase, BarterModel.Index.Asset.mk.injEq] at h
+  have e1 : ai = bi := code_inj _ _ ha.1 hb.1 h.1
+  have e2 : ax = bx := code_inj _ _ ha.2 hb.2 h.2
+  rw [e1, e2]
+
+theorem kindMap_erase_inj (k k' : Kind BarterModel.Names.Asset)
+    (hk : ∀ a, k.settlementAsset = some a → Asset.ShortA a)
+    (hk' : ∀ a, k'.settlementAsset = some a → Asset.ShortA a)
+    (h : kindMap Asset.erase k = kindMap Asset.erase k') : k = k' := by
+  cases k <;> cases k' <;> simp only [kindMap, Kind.perpetual.injEq, Kind.future.injEq,
+    Kind.option.injEq, reduceCtorEq] at h ⊢
+  all_goals
+    first
+    | (obtain ⟨h1, h2⟩ := h
+       exact ⟨h1, erase_inj _ _ (hk _ rfl) (hk' _ rfl) h2⟩)
+    | (obtain ⟨h1, h2, h3⟩ := h
+       exact ⟨h1, erase_inj _ _ (hk _ rfl) (hk' _ rfl) h2, h3⟩)
+    | (obtain ⟨h1, h2, h3, h4, h5, h6⟩ := h
+       exact ⟨h1, erase_inj _ _ (hk _ rfl) (hk' _ rfl) h2, h3, h4, h5, h6⟩)
+
+theorem specMap_erase_inj (s s' : Option (Spec BarterModel.Names.Asset))
+    (hs : ∀ a, specUnitAsset s = some a → Asset.ShortA a)
+    (hs' : ∀ a, specUnitAsset s' = some a → Asset.ShortA a)
+    (h : specMap Asset.erase s = specMap Asset.erase s') : s = s' := by
+  cases s with
+  | none => cases s' <;> simp [specMap] at h ⊢
+  | some a =>
+    cases s' with
+    | none => simp [specMap] at h
+    | some b =>
+      obtain ⟨pm, tk, u, qm, qi, nm⟩ := a
+      obtain ⟨pm', tk', u', qm', qi', nm'⟩ := b
+      simp only [specMap, Option.some.injEq, Spec.mk.injEq] at h ⊢
+      obtain ⟨h1, h2, h3, h4, h5, h6⟩ := h
+      refine ⟨h1, h2, ?_, h4, h5, h6⟩
+      cases u <;> cases u' <;> simp only [Units.asset.injEq, reduceCtorEq] at h3 ⊢
+      exact erase_inj _ _ (hs _ rfl) (hs' _ rfl) h3
+
+/-- on definitions whose names fit the code, the translation into the builder model loses nothing -/
+theorem toDef_inj (x y : SDef) (hx : x.Short) (hy : y.Short) (h : toDef x = toDef y) : x = y := by
+  obtain ⟨xe, ⟨xi⟩, ⟨xn⟩, xb, xq, xqa, xk, xs⟩ := x
+  obtain ⟨ye, ⟨yi⟩, ⟨yn⟩, yb, yq, yqa, yk, ys⟩ := y
+  simp only [toDef, BarterModel.Index.Instrument.mk.injEq] at h
+  obtain ⟨h1, h2, h3, h4, h5, h6, h7, h8⟩ := h
+  obtain ⟨hx1, hx2, hx3⟩ := hx
+  obtain ⟨hy1, hy2, hy3⟩ := hy
+  simp only [BarterModel.Names.Instrument.assetRefs, List.mem_append, List.mem_cons, List.not_mem_nil, or_false,
+    Option.mem_toList] at hx3 hy3
+  have e1 := toNat_inj h1
+  have e2 := code_inj _ _ hx1 hy1 h2
+  have e3 := code_inj _ _ hx2 hy2 h3
+  have e4 := erase_inj xb yb (hx3 _ (Or.inl (Or.inl (Or.inl rfl)))) (hy3 _ (Or.inl (Or.inl (Or.inl rfl)))) h4
+  have e5 := erase_inj xq yq (hx3 _ (Or.inl (Or.inl (Or.inr rfl)))) (hy3 _ (Or.inl (Or.inl (Or.inr rfl)))) h5
+  have e7 := kindMap_erase_inj xk yk (fun a ha => hx3 a (Or.inl (Or.inr ha)))
+    (fun a ha => hy3 a (Or.inl (Or.inr ha))) h7
+  have e8 := specMap_erase_inj xs ys (fun a ha => hx3 a (Or.inr ha)) (fun a ha => hy3 a (Or.inr ha)) h8
+  simp only at e2 e3
+  subst e1 e2 e3 e4 e5 h6 e7 e8
+  rfl
+
+
+section specSort
+variable {α β : Type} (lt : α → α → Bool) (K : α → List Nat)
+
+theorem mem_specInsert (x w : α) (l : List α) (h : w ∈ specInsert lt x l) : w = x ∨ w ∈ l := by
+  induction l with
+  | nil => simp [specInsert] at h; exact Or.inl h
+  | cons y t ih =>
+    simp only [specInsert] at h
+    split at h
+    · simpa using h
+    · split at h
+      · rcases List.mem_cons.mp h with rfl | h'
+        · exact Or.inr (by simp)
+        · rcases ih h' with h'' | h''
+          · exact Or.inl h''
+          · exact Or.inr (List.mem_cons_of_mem _ h'')
+      · exact Or.inr h
+
+/-- one insertion into a list ascending in `K`, for an order `lt` that is `K`'s on the elements
+involved: still ascending, nothing lost, and the new element is there up to `K` -/
+theorem specInsert_spec (x : α) (l : List α)
+    (hlt : ∀ a ∈ x :: l, ∀ b ∈ x :: l, (lt a b = true ↔ K a < K b))
+    (hs : l.Pairwise (fun a b => K a < K b)) :
+    (specInsert lt x l).Pairwise (fun a b => K a < K b) ∧ (∀ w ∈ l, w ∈ specInsert lt x l) ∧
+      ∃ z ∈ specInsert lt x l, K z = K x := by
+  induction l with
+  | nil => simp [specInsert]
+  | cons y t ih =>
+    have ⟨hy, ht⟩ := List.pairwise_cons.mp hs
+    have ih' := ih (fun a ha b hb => hlt a (by
+        rcases List.mem_cons.mp ha with rfl | ha
+        · simp
+        · simp [ha]) b (by
+        rcases List.mem_cons.mp hb with rfl | hb
+        · simp
+        · simp [hb])) ht
+    simp only [specInsert]
+    by_cases h1 : lt x y = true
+    · rw [if_pos h1]
+      have hxy : K x < K y := (hlt x (by simp) y (by simp)).mp h1
+      refine ⟨List.pairwise_cons.mpr ⟨?_, hs⟩, fun w hw => List.mem_cons_of_mem _ hw, x, by simp, rfl⟩
+      intro z hz
+      rcases List.mem_cons.mp hz with rfl | hz
+      · exact hxy
+      · exact List.lt_trans hxy (hy z hz)
+    · rw [if_neg h1]
+      by_cases h2 : lt y x = true
+      · rw [if_pos h2]
+        have hyx : K y < K x := (hlt y (by simp) x (by simp)).mp h2
+        obtain ⟨p1, p2, z, hz, hzx⟩ := ih'
+        refine ⟨List.pairwise_cons.mpr ⟨?_, p1⟩, ?_, z, List.mem_cons_of_mem _ hz, hzx⟩
+        · intro w hw
+          rcases mem_specInsert lt x w t hw with rfl | hw
+          · exact hyx
+          · exact hy w hw
+        · intro w hw
+          rcases List.mem_cons.mp hw with rfl | hw
+          · simp
+          · exact List.mem_cons_of_mem _ (p2 w hw)
+      · rw [if_neg h2]
+        refine ⟨hs, fun w hw => hw, y, by simp, ?_⟩
+        have n1 : ¬ K x < K y := fun h => h1 ((hlt x (by simp) y (by simp)).mpr h)
+        have n2 : ¬ K y < K x := fun h => h2 ((hlt y (by simp) x (by simp)).mpr h)
+        exact List.le_antisymm (List.not_lt.mp n1) (List.not_lt.mp n2)
+
+theorem specSort_fold (l acc : List α)
+    (hlt : ∀ a ∈ acc ++ l, ∀ b ∈ acc ++ l, (lt a b = true ↔ K a < K b))
+    (hs : acc.Pairwise (fun a b => K a < K b)) :
+    (l.foldl (fun acc x => specInsert lt x acc) acc).Pairwise (fun a b => K a < K b) ∧
+    (∀ w ∈ l.foldl (fun acc x => specInsert lt x acc) acc, w ∈ acc ++ l) ∧
+    ∀ y ∈ acc ++ l, ∃ z ∈ l.foldl (fun acc x => specInsert lt x acc) acc, K z = K y := by
+  induction l generalizing acc with
+  | nil =>
+    simp only [List.foldl_nil, List.append_nil]
+    exact ⟨hs, fun w hw => hw, fun y hy => ⟨y, hy, rfl⟩⟩
+  | cons x t ih =>
+    simp only [List.foldl_cons]
+    have hsub : ∀ w ∈ specInsert lt x acc, w ∈ acc ++ x :: t := by
+      intro w hw
+      rcases mem_specInsert lt x w acc hw with rfl | hw
+      · simp
+      · simp [hw]
+    obtain ⟨q1, q2, z0, hz0, hzx⟩ := specInsert_spec lt K x acc (fun a ha b hb => hlt a (by
+        rcases List.mem_cons.mp ha with rfl | ha
+        · simp
+        · simp [ha]) b (by
+        rcases List.mem_cons.mp hb with rfl | hb
+        · simp
+        · simp [hb])) hs
+    obtain ⟨r1, r2, r3⟩ := ih (specInsert lt x acc) (fun a ha b hb => hlt a (by
+        rcases List.mem_append.mp ha with ha | ha
+        · exact hsub a ha
+        · simp [ha]) b (by
+        rcases List.mem_append.mp hb with hb | hb
+        · exact hsub b hb
+        · simp [hb])) q1
+    refine ⟨r1, ?_, ?_⟩
+    · intro w hw
+      rcases List.mem_append.mp (r2 w hw) with h | h
+      · exact hsub w h
+      · simp [h]
+    · intro y hy
+      rcases List.mem_append.mp hy with h | h
+      · exact r3 y (List.mem_append_left _ (q2 y h))
+      · rcases List.mem_cons.mp h with rfl | h
+        · obtain ⟨z, hz, hzz⟩ := r3 z0 (List.mem_append_left _ hz0)
+          exact ⟨z, hz, hzz.trans hzx⟩
+        · exact r3 y (List.mem_append_right _ h)
+
+/-- "sorted + deduped" written as insertion into an ascending list is the builder's `sort(); dedup()`,
+seen through a translation `f` into a type with an injective sort key under which `lt` is the key order -/
+theorem specSortDistinct_map_eq [DecidableEq β] (f : α → β) (key : β → List Nat)
+    (hinj : Function.Injective key) (l : List α)
+    (hlt : ∀ a ∈ l, ∀ b ∈ l, (lt a b = true ↔ key (f a) < key (f b))) :
+    (specSortDistinct lt l).map f = sortDedup key (l.map f) := by
+  obtain ⟨p1, p2, p3⟩ := specSort_fold lt (fun a => key (f a)) l [] (by simpa using hlt) (by simp)
+  simp only [List.nil_append] at p2 p3
+  apply strict_ext (leKey key) (leKey_antisymm key hinj)
+  · unfold Strict
+    rw [List.pairwise_map]
+    refine p1.imp ?_
+    intro a b hab
+    refine ⟨decide_eq_true (List.le_of_lt hab), fun he => ?_⟩
+    rw [he] at hab
+    exact List.lt_irrefl _ hab
+  · exact strict_sortDedup key hinj _
+  · intro x
+    rw [mem_sortDedup]
+    simp only [List.mem_map]
+    constructor
+    · rintro ⟨a, ha, rfl⟩; exact ⟨a, p2 a ha, rfl⟩
+    · rintro ⟨a, ha, rfl⟩
+      obtain ⟨z, hz, hzz⟩ := p3 a ha
+      exact ⟨z, hz, hinj hzz⟩
+
+end specSort
+
+theorem lt3 (a b c a' b' c' : Nat) :
+    [a, b, c] < [a', b', c'] ↔ a < a' ∨ (a = a' ∧ (b < b' ∨ (b = b' ∧ c < c'))) := by
+  simp [List.cons_lt_cons_iff]
+
+theorem specAssetLt_key (x y : ExchangeId × BarterModel.Names.Asset)
+    (hx : x.2.nameInternal.name.length ≤ L ∧ x.2.nameExchange.name.length ≤ L)
+    (hy : y.2.nameInternal.name.length ≤ L ∧ y.2.nameExchange.name.length ≤ L) :
+    specAssetLt x y = true ↔ (eraseEntry x).sortKey < (eraseEntry y).sortKey := by
+  obtain ⟨xe, ⟨⟨xi⟩, ⟨xx⟩⟩⟩ := x
+  obtain ⟨ye, ⟨⟨yi⟩, ⟨yx⟩⟩⟩ := y
+  simp only at hx hy
+  simp only [eraseEntry, ExchangeAsset.sortKey, Asset.erase, lt3, code_lt_iff _ _ hx.1 hy.1,
+    code_lt_iff _ _ hx.2 hy.2, specAssetLt, specKeyLt, Bool.or_eq_true, Bool.and_eq_true,
+    decide_eq_true_eq, beq_iff_eq, AssetNameInternal.mk.injEq]
+  have hc : code xi = code yi ↔ xi = yi := ⟨code_inj _ _ hx.1 hy.1, fun h => h ▸ rfl⟩
+  have he : xe.toNat = ye.toNat ↔ xe = ye := ⟨toNat_inj, fun h => h ▸ rfl⟩
+  rw [hc, he]
+  constructor
+  · rintro ((h | ⟨h1, h2⟩) | ⟨⟨h1, h2⟩, h3⟩)
+    · exact Or.inl h
+    · exact Or.inr ⟨h1, Or.inl h2⟩
+    · exact Or.inr ⟨h1, Or.inr ⟨h2, h3⟩⟩
+  · rintro (h | ⟨h1, h2 | ⟨h2, h3⟩⟩)
+    · exact Or.inl (Or.inl h)
+    · exact Or.inl (Or.inr ⟨h1, h2⟩)
+    · exact Or.inr ⟨⟨h1, h2⟩, h3⟩
+
+
+theorem all_toNat_strict : ExchangeId.all.Pairwise
+    (fun a b => leKey exchangeKey a.toNat b.toNat = true ∧ a.toNat ≠ b.toNat) := by decide +kernel
+
+
+end tables
+
 end BarterModel.Names
